@@ -1,4 +1,5 @@
 """C04 - garbage is reclaimed and a finished run leaves nothing behind."""
+import re
 import vlib, runcorr, gccheck, progcheck
 
 COQ_TARGETS = ["props/C04.vo", "corr/CorrGC.vo", "corr/CorrRun.vo"]
@@ -27,6 +28,22 @@ def run(ctx, log):
                   "stel s = \"a\"; s[0] = \"b\"; 2.5 +", "\"abc\" \"def\" 1.25 )", "zolang onbekend { 1.5 }", "functie f(a) { 2.5; stop } f(1)"]
     progs = list(gccheck.ALLOC_CORPUS) + front_fail + progcheck.alloc_stress_family()[:9] + gccheck.gen_alloc_programs(rng, 200 if ctx.quick else 2000)
     full = vlib.nlh("eval", ["100000 " + vlib.hexs(s) for s in progs], tag="c04f")
+    # a finished evaluation leaves nothing behind for the next one in the same process and thread: globals, locals and
+    # operands of an earlier text are not there (names read in their own initialiser are null)
+    leak = []
+    for first in ("stel a = [1.5]; stel b = \"tekst\"; stel c = 3; stel d = 2.5; 0", "functie f(p, q) { stel l = [p]; l } stel r = f(\"s\", 1); r", "stel i = 0; zolang i < 9 { i += 1; stel t = [i, \"x\"] } i", "[1, [2.5, \"y\"], 3]"):
+        leak += [first, "stel x = x; stel y = y; stel z = z; stel w = w; [type(x), type(y), type(z), type(w)]", first, "functie g(a, b, c) { stel l = l; [type(a), type(b), type(c), type(l)] } g()"]
+    lo = vlib.nlh("eval", ["100000 " + vlib.hexs(x) for x in leak], tag="c04leak")
+    nulls = "OK #0=A[#1=S110.117.108.108,#2=S110.117.108.108,#3=S110.117.108.108,#4=S110.117.108.108]"
+    for x, o in zip(leak, lo):
+        ctx.seen(("after-another-evaluation", x))
+        if x.startswith("stel x = x") or x.startswith("functie g("):
+            ctx.count("reads-after-another-evaluation")
+            if progcheck.head(o) != nulls:
+                ctx.violate("an evaluation saw what an earlier evaluation in the same process left behind", source=x, observed=o[:200], expected=nulls)
+        live = re.search(r"HEAP (\d+) (\d+) (\d+)", o)
+        if live and live.group(3) != "0" and not o.startswith("OK"):
+            ctx.violate("a failed evaluation left objects behind", source=x, observed=o[:200])
     # the same programs on the production build, where a box released twice or read after release meets the real allocator
     progcheck.run_production(ctx, log, progs[:len(progs) - (0 if not ctx.quick else 80)])
     limit = 150 if ctx.quick else 2000
